@@ -34,6 +34,12 @@ type B struct {
 	Id int64
 	Y  int64
 }
+
+// Person objects are long-lived: the resolver hands out the same pointers in every run, so an Expensive field's
+// reactive.Cache key (source pointer + selection) is stable across re-runs.
+type Person struct {
+	Id int64
+}
 type U struct {
 	schemabuilder.Union
 	*A
@@ -47,10 +53,13 @@ type state struct {
 	Kind  string // "A" | "B" | ""  (union member or null)
 	Maybe bool
 	Boom  string // "" | "error" | "safe" | "wrapped" | "panic": how the boom field behaves
+	// people currently listed (ids 1..3) and the score of each person (index = id)
+	People []int64
+	Scores [4]int64
 }
 
 func initial() state {
-	return state{Flag: 0, Items: []Node{{1, "one"}, {2, "two"}, {3, "three"}}, Kind: "A", Maybe: true}
+	return state{Flag: 0, Items: []Node{{1, "one"}, {2, "two"}, {3, "three"}}, Kind: "A", Maybe: true, People: []int64{1, 2, 3}, Scores: [4]int64{0, 10, 20, 30}}
 }
 
 // changes the environment can apply
@@ -102,6 +111,27 @@ var changes = []struct {
 		return s
 	}},
 	{"maybe-toggle", func(s state) state { s.Maybe = !s.Maybe; return s }},
+	{"p-remove", func(s state) state {
+		var out []int64
+		for _, id := range s.People {
+			if id != 2 {
+				out = append(out, id)
+			}
+		}
+		s.People = out
+		return s
+	}},
+	{"p-add", func(s state) state {
+		for _, id := range s.People {
+			if id == 2 {
+				return s
+			}
+		}
+		s.People = append(append([]int64{}, s.People...), 2)
+		return s
+	}},
+	{"p-score", func(s state) state { s.Scores[2] += 79; return s }},
+	{"p-score1", func(s state) state { s.Scores[1]++; return s }},
 	{"boom-error", func(s state) state { s.Boom = "error"; return s }},
 	{"boom-panic", func(s state) state { s.Boom = "panic"; return s }},
 	{"boom-off", func(s state) state { s.Boom = ""; return s }},
@@ -117,14 +147,15 @@ func changeIndex(name string) int {
 }
 
 var queries = map[string]string{
-	"flag":  `{ flag }`,
-	"items": `{ items { id val } }`,
-	"thing": `{ thing { __typename ... on A { id x } ... on B { id y } } }`,
-	"maybe": `{ maybe { id val } flag }`,
-	"all":   `{ flag items { id } maybe { val } }`,
-	"boom":  `{ flag boom }`,
-	"slow":  `{ slow }`,
-	"bad":   `{ nosuchfield }`,
+	"flag":   `{ flag }`,
+	"items":  `{ items { id val } }`,
+	"thing":  `{ thing { __typename ... on A { id x } ... on B { id y } } }`,
+	"maybe":  `{ maybe { id val } flag }`,
+	"all":    `{ flag items { id } maybe { val } }`,
+	"boom":   `{ flag boom }`,
+	"people": `{ people { id score } }`,
+	"slow":   `{ slow }`,
+	"bad":    `{ nosuchfield }`,
 }
 
 type event struct {
@@ -235,6 +266,17 @@ func (w *world) buildSchema() *graphql.Schema {
 		}
 		return nil
 	})
+	persons := map[int64]*Person{1: {1}, 2: {2}, 3: {3}}
+	q.FieldFunc("people", func(ctx context.Context) []*Person {
+		var out []*Person
+		for _, id := range w.dep(ctx).People {
+			out = append(out, persons[id])
+		}
+		return out
+	})
+	person := s.Object("Person", Person{})
+	person.Key("id")
+	person.FieldFunc("score", func(ctx context.Context, p *Person) int64 { return w.dep(ctx).Scores[p.Id] }, schemabuilder.Expensive)
 	// a resolver that notices the cancellation of its run (Stop / unsubscribe while in flight)
 	q.FieldFunc("slow", func(ctx context.Context) (int64, error) {
 		st := w.dep(ctx)
